@@ -203,3 +203,14 @@ Proof.
   inversion HF; subst. destruct (step_I1 pool s c HI H1) as (s' & o & l & HS & HI' & HO).
   rewrite HS. cbn [bind]. now apply IH.
 Qed.
+
+(* the slice / index expressions that the model writes with total list functions are in range too:
+   `s.open[0 : len(s.open)-len(closed)]` (no underflow), and the index Close works on *)
+Theorem internal_slices_in_range : forall s d,
+  length (close_loop d (rev (open s))) <= length (open s) /\
+  (forall i, find_last_equal d (open s) = Some i -> i < length (open s)).
+Proof.
+  intros s d. split.
+  - rewrite <- (rev_length (open s)). apply close_loop_length.
+  - intros i H. now destruct (find_last_equal_spec _ _ _ H).
+Qed.
